@@ -483,3 +483,34 @@ Definition header_meta (content : str) : str * option str :=
   (match first_with meta_kw_tree h with Some t => t | None => [] end, first_with meta_kw_parent h).
 
 Definition oid_ok (s : str) : bool := nonempty s && forallb is_hex s.
+
+(* ------------------------------------------------------------------ (e) the replay's write-or-fall-back decision *)
+(* Step 3 of rewrite_authorship_after_rebase_v2 / rewrite_authorship_after_cherry_pick, per rewritten
+   commit, AFTER the shortcut declined: the recomputed note (has attestations? has prompt records? its
+   serialisation) is written when it `has payload`; otherwise a remapped copy of the original commit's
+   note, when there is one.  Whether prompt records count as payload is read from the source. *)
+Definition has_payload (count_prompts : bool) (has_atts has_prompts : bool) : bool :=
+  has_atts || (count_prompts && has_prompts).
+
+(* rebase: None = nothing is written for this commit *)
+Definition replay_write_rebase_gen (count_prompts : bool) (fb : str -> str -> option str)
+           (has_atts has_prompts : bool) (recomputed : str) (orig : option str) (new_commit : str)
+  : option str :=
+  if has_payload count_prompts has_atts has_prompts then Some recomputed
+  else match orig with
+       | Some raw => Some (remap_note fb raw new_commit)
+       | None => None
+       end.
+
+(* cherry-pick: always writes; without an original the (empty) recomputed note is serialised *)
+Definition replay_write_cherry_gen (count_prompts : bool) (fb : str -> str -> option str)
+           (has_atts has_prompts : bool) (recomputed : str) (orig : option str) (new_commit : str)
+  : option str :=
+  if has_payload count_prompts has_atts has_prompts then Some recomputed
+  else match orig with
+       | Some raw => Some (remap_note fb raw new_commit)
+       | None => Some recomputed
+       end.
+
+Definition replay_write_rebase := replay_write_rebase_gen replay_payload_counts_prompts_rebase.
+Definition replay_write_cherry := replay_write_cherry_gen replay_payload_counts_prompts_cherry.
